@@ -133,6 +133,19 @@ def impl_main(payload):
                     bf = isl.get_best_fitness()
                     if not (bf == best.fitness or (math.isnan(bf) and math.isnan(best.fitness))):
                         viol.append("get_best_fitness differs from the best individual's fitness")
+                    # the population changes while the island's age does not (the best emigrates, evaluated newcomers arrive):
+                    # the next query answers for the population as it is NOW
+                    if idx and len(isl.population) > 1:
+                        newcomers = mk_pop([fl(v) for v in c["pops"][0][:2]], False)
+                        isl.population = [p for p in isl.population if p is not best] + (newcomers if len(c["pops"][0]) % 2 else [])
+                        b2 = isl.get_best_individual()
+                        if not any(p is b2 for p in isl.population):
+                            viol.append("after the best individual left the population, the island still reports it (not a member)")
+                        elif not is_min(b2.fitness, [p.fitness for p in isl.population]):
+                            viol.append("after a population change at the same age the reported best is not a minimum")
+                        bf2 = isl.get_best_fitness()
+                        if not (bf2 == b2.fitness or (math.isnan(bf2) and math.isnan(b2.fitness))):
+                            viol.append("get_best_fitness differs from the best individual's fitness after a population change")
                 except IndexError:
                     out = [-1]
             else:
@@ -151,6 +164,15 @@ def impl_main(payload):
                 bf = arch.get_best_fitness()
                 if not (bf == best.fitness or (math.isnan(bf) and math.isnan(best.fitness))):
                     viol.append("archipelago get_best_fitness differs from best individual's fitness")
+                if loc and len(arch.islands[loc[0][0]].population) > 1:
+                    home = arch.islands[loc[0][0]]
+                    home.population = [p for p in home.population if p is not best]
+                    b2 = arch.get_best_individual()
+                    allf2 = [p.fitness for isl in arch.islands for p in isl.population]
+                    if not any(p is b2 for isl in arch.islands for p in isl.population):
+                        viol.append("after the best individual left its island, the archipelago still reports it (not a member)")
+                    elif not is_min(b2.fitness, allf2):
+                        viol.append("after a population change at the same age the archipelago's best is not a minimum")
         except Exception as e:  # noqa
             out = [-3]
             viol.append("unexpected exception %r" % (e,))
